@@ -23,6 +23,11 @@ ETL = re.compile(r"^babylon::EnumerableThreadLocal<.*>$")
 CTL = re.compile(r"^babylon::CompactEnumerableThreadLocal<.*>$")
 
 
+DEPENDS = {
+    "C04": "the per-thread slots live in a ConcurrentVector",
+    "C14": "slots are addressed by ThreadId",
+}
+
 def units(tier):
     return [driver("counter.cc"), lib("concurrent/counter.cpp")]
 
